@@ -16,12 +16,14 @@ DRV = os.path.join(BUILD, 'ml', 'model_driver')
 CONC_CFGS_QUICK = [(2, 1), (1, 2), (4, 1)]
 CONC_CFGS_THOROUGH = [(2, 1), (1, 2), (4, 1), (1, 1), (2, 2), (3, 1)]
 
-def build_conc(cfgs):
+def build_conc(cfgs, valhook=False):
+    """valhook: the variant with an instrumented mapped type (every use of a stored value is an event and a read of
+    one is a scheduling point); no stream operations in that variant"""
     os.makedirs(BUILD, exist_ok=True)
     def one(c):
         spb, lb = c
-        out = os.path.join(BUILD, 'conc_s%d_l%d' % (spb, lb))
-        cmd = ['g++', '-std=gnu++17', '-O1', '-g', '-DNDEBUG', '-I', REPO, '-DLIBCUCKOO_VERIF=1', '-DH_SPB=%d' % spb,
+        out = os.path.join(BUILD, 'conc_s%d_l%d%s' % (spb, lb, '_v' if valhook else ''))
+        cmd = ['g++', '-std=gnu++17', '-O1', '-g', '-DNDEBUG', '-I', REPO, '-DLIBCUCKOO_VERIF=1', '-DH_SPB=%d' % spb] + (['-DH_VALHOOK=1'] if valhook else []) + [
                '-DLIBCUCKOO_VERIF_MAX_NUM_LOCKS=%d' % (1 << lb), os.path.join(V, 'harness', 'conc.cc'), '-o', out, '-lpthread']
         r = subprocess.run(cmd, capture_output=True, text=True)
         if r.returncode != 0:
@@ -135,6 +137,7 @@ def parse_run(out):
     open_inv = {}
     events = []
     trace = []        # EV and AC (data access) lines in order
+    ev_idx = []       # (position, tid, label) of every protocol event
     arrs0 = []
     idx = 0
     final = None
@@ -145,6 +148,7 @@ def parse_run(out):
         if tk[0] == 'H':
             t = int(tk[1])
             if tk[2] == 'inv':
+                if tk[3] == 'findthrow': tk[3] = 'find'     # the throwing overload: same history-level meaning
                 open_inv[t] = (tk[3:], idx)
             else:
                 op, i0 = open_inv.pop(t)
@@ -153,6 +157,7 @@ def parse_run(out):
         elif tk[0] == 'EV':
             events.append((int(tk[1]), tk[2:]))
             trace.append((int(tk[1]), tk[2:]))
+            ev_idx.append((idx, int(tk[1]), tk[2]))
             idx += 1
         elif tk[0] == 'AC':
             trace.append((int(tk[1]), ['ACC'] + tk[2:]))
@@ -178,7 +183,7 @@ def parse_run(out):
         elif tk[0] == 'FINAL':
             flags['final_line'] = ln
     pending = [dict(tid=t, op=op, res=None, inv=i0, ret=None) for t, (op, i0) in open_inv.items()]
-    return dict(events=events, hist=hist, pending=pending, final=final, flags=flags, trace=trace, arrs0=arrs0)
+    return dict(events=events, hist=hist, pending=pending, final=final, flags=flags, trace=trace, arrs0=arrs0, ev_idx=ev_idx)
 
 def linearize(init, hist, final):
     """DFS over real-time-consistent orders in which a locked section is not interleaved with other
@@ -214,8 +219,10 @@ def linearize(init, hist, final):
     ok = rec(0, dict(init), None)
     return list(order) if ok else None
 
-def section_exclusive(hist):
-    """no operation of another thread returns, or is invoked and returns, while a locked section is active"""
+def section_exclusive(hist, ev_idx=()):
+    """no operation of another thread takes effect or returns while a locked section is active.  An operation that
+    had performed its last synchronisation event (it released everything it held) BEFORE lock_table() returned is
+    complete: only its return instruction is still to be executed, which no lock can delay - it is not counted."""
     bad = []
     for h in hist:
         if h['op'][0] == 'lock' and h['res'] == ['-']:
@@ -225,6 +232,9 @@ def section_exclusive(hist):
             end = min(ends) if ends else 10 ** 9
             for x in hist:
                 if x['tid'] != t and start < x['ret'] < end:
+                    own = [i for (i, tt, lab) in ev_idx if tt == x['tid'] and x['inv'] < i < x['ret'] and lab != 'RET']
+                    if ev_idx and own and max(own) < start:
+                        continue
                     bad.append((h, x))
     return bad
 
@@ -473,7 +483,7 @@ def run_one(args):
     res['linearizable'] = order is not None
     if order is None:
         res['problems'].append(('C01', 'history has no linearization (results / final contents inconsistent with every real-time-consistent order)'))
-    for (h0, x) in section_exclusive(run['hist']):
+    for (h0, x) in section_exclusive(run['hist'], run['ev_idx']):
         res['problems'].append(('C06', 'operation %s of thread %d returned while thread %d held an active locked_table' % (x['op'], x['tid'], h0['tid'])))
     # confirmation of the witness order by the extracted sequential model
     if order is not None and do_confirm:
@@ -506,7 +516,8 @@ def run_one(args):
             else: want.append((hop['op'], hop['res']))
         j = 0
         conf = True
-        for (mo, mre) in zip(mops, mres):
+        nsetup = 1 + len(pre)      # 'new' and the set-up operations precede the linearized ones in the model's run
+        for (mo, mre) in list(zip(mops, mres))[nsetup:]:
             if j >= len(want): break
             wo, wr = want[j]
             if mo[:1] == wo[:1] and (wo[1:2] == ['*'] or mo[1:] == wo[1:]):
